@@ -108,6 +108,12 @@ CHECKS = {
         note="input size bounded (<= 1 MB) so hangs cannot hide; go is only sent at the start position",
         ref="DESIGN.md 6 C14",
     ),
+    "C16": dict(
+        technique="exhaustive differential check of the built book against an independent PGN/SAN replay of all book games, plus property-based generation of right-stripped variants and real move histories",
+        text="Exhaustive over the stated finite space (all positions in the first ten plies of all 7888 games in 132 files): lookup equals the independently replayed move set and is legal. Generated-input search for the rest: right-stripped / ep-dropped / side-flipped variants and real tempo-losing move histories must be offered nothing or only legal moves, and exactly the recorded set wherever a recorded position is reached.",
+        note="oracle PGN+SAN readers must replay every game (exit 2 otherwise); ep availability = pseudo-legal availability, mismatches with legal availability counted",
+        ref="DESIGN.md 6 C16",
+    ),
 }
 
 NOT_YET = {
